@@ -212,8 +212,15 @@ def main(ctx):
     jobs = cj + cra_jobs(tier, seed) + cs_jobs(tier, seed, "tx") + [{"kind": "selftest"}] + sj + \
         totp_jobs(tier, seed)
     jobs.append({"kind": "scram-reuse"})
-    ctx.pmap(ENV, "props.c19:job", jobs, chunksize=1)
-    ctx.pmap(ENV, "props.c19:job", cs_jobs(tier, seed, "aio"), chunksize=1)
+
+    def sess_jobs(fw):
+        # WAMP-SCRAM through a whole real client session (Session + add_authenticator)
+        return [{"kind": "session-scram", "txaio": fw, "password": pw, "n": i,
+                 "cnonce": _rb(seed, "ss-cn%d" % i, 16).hex(), "snonce": _rb(seed, "ss-sn%d" % i, 16).hex(),
+                 "salt": _rb(seed, "ss-salt%d" % i, 16).hex()}
+                for i, pw in enumerate(["pencil", "p4ssw0rd-\u00fc"] + (["", "x" * 70] if tier == "thorough" else []))]
+    ctx.pmap(ENV, "props.c19:job", jobs + sess_jobs("tx"), chunksize=1)
+    ctx.pmap(ENV, "props.c19:job", cs_jobs(tier, seed, "aio") + sess_jobs("aio"), chunksize=1)
     c = ctx.counters
     ctx.coverage["distinct_nontrivial"] = int(c["nontrivial"])
     ctx.coverage["base_cases"] = int(c["base_cases"])
@@ -237,6 +244,9 @@ def main(ctx):
         ctx.notes.append("scram-pbkdf2: on_challenge() raised in all %d exchanges; proof / server "
                          "signature fault enumeration for this KDF could not run" %
                          c["scram-pbkdf2:cases"])
+    ctx.require("session-scram:joined:tx")
+    ctx.require("session-scram:joined:aio")
+    ctx.require("session-scram:refused", 2 * 40)
     ctx.require("cryptosign:fw-tx")
     ctx.require("cryptosign:fw-aio")
     ctx.require("cred:cases")
@@ -304,7 +314,7 @@ def job(a):
     from autobahn.wamp import auth
     assert auth.HAS_ARGON
     try:
-        {"cra": _cra, "totp": _totp, "scram": _scram, "cred": _cred,
+        {"session-scram": _session_scram, "cra": _cra, "totp": _totp, "scram": _scram, "cred": _cred,
          "scram-reuse": _scram_reuse}[kind](o, R, auth, a)
     finally:
         auth.os = os
@@ -881,6 +891,158 @@ def _scram(o, R, auth, a, server_cred=None):
         else:
             o.stats[mech + ":rejected"] += 1
             o.stats[mech + ":welcome_rejected"] += 1
+
+
+class _FakeTransport:
+    """ITransport as seen by a session: records what the session sends"""
+
+    def __init__(self):
+        from autobahn.wamp import serializer, types
+        self.sent = []
+        self.closed = False
+        self._serializer = serializer.JsonSerializer()
+        self.transport_details = types.TransportDetails()
+
+    def send(self, msg):
+        self.sent.append(msg)
+
+    def isOpen(self):
+        return not self.closed
+
+    is_open = isOpen
+
+    def is_closed(self):
+        return self.closed
+
+    def close(self):
+        self.closed = True
+
+    abort = close
+
+
+def _session_scram(o, R, auth, a):
+    """A SCRAM client (a real Session with an AuthScram authenticator) joins only on a WELCOME that
+    carries the correct server signature."""
+    from autobahn.wamp import message, role, types
+    fw = a["txaio"]
+    _framework(fw)
+    if fw == "tx":
+        from autobahn.twisted.wamp import Session
+    else:
+        from autobahn.asyncio.wamp import Session
+    password, authid = a["password"], "alice"
+    kdf, it, mem = "argon2id-13", 1, 8
+    cn_raw, sn_raw, salt = bytes.fromhex(a["cnonce"]), bytes.fromhex(a["snonce"]), bytes.fromhex(a["salt"])
+    what = "fw=%s session-level scram password=%r" % (fw, password)
+    ra = dict(a)
+
+    def spin():
+        if fw != "tx":
+            import asyncio
+            for _ in range(4):
+                _LOOP[0].run_until_complete(asyncio.sleep(0))
+
+    class S(Session):
+        def __init__(self, *args, **kw):
+            Session.__init__(self, *args, **kw)
+            self.log = _Log()           # no console output from workers
+            self.joined = []
+            self.left = []
+
+        def on_join(self, details):
+            self.joined.append(details)
+
+        def on_leave(self, details):
+            self.left.append(details)
+
+    def until_welcome():
+        auth.os = _NS(urandom=lambda k: (cn_raw * (k // len(cn_raw) + 1))[:k])
+        sess = S(types.ComponentConfig("realm1"))
+        sess.add_authenticator(auth.create_authenticator("scram", authid=authid, password=password))
+        tr = _FakeTransport()
+        sess.onOpen(tr)
+        spin()
+        hello = tr.sent[-1]
+        if not isinstance(hello, message.Hello) or hello.authmethods != ["scram"]:
+            raise RuntimeError("unexpected first message %r" % (hello,))
+        cnonce = hello.authextra["nonce"]
+        snonce = cnonce + R.b64(sn_raw)
+        salt_b64 = R.b64(salt)
+        extra = {"nonce": snonce, "kdf": kdf, "salt": salt_b64, "iterations": it, "memory": mem}
+        am = R.scram_auth_message(R.saslprep(authid), cnonce, snonce, salt_b64, it, None)
+        sess.onMessage(message.Challenge("scram", dict(extra)))
+        spin()
+        au = tr.sent[-1]
+        if not isinstance(au, message.Authenticate):
+            raise RuntimeError("no AUTHENTICATE after CHALLENGE: %r" % (tr.sent,))
+        return sess, tr, am, au.signature
+
+    cred = R.scram_credential(kdf, password, salt, it, mem)
+    sess, tr, am, proof = until_welcome()
+    o.evals += 1
+    if not R.scram_verify_proof(cred["stored_key"], am, proof):
+        o.bad("C19|session-scram|client-proof|rejected-by-reference", "%s: proof %r" % (what, proof), ra)
+        return
+    ssig = R.scram_server_signature(cred["server_key"], am)
+    good = R.b64(ssig)
+    other = R.b64(R.scram_server_signature(R.scram_credential(kdf, password + "x", salt, it, mem)["server_key"], am))
+    NOEXTRA = object()
+    variants = [("correct", {"scram_server_signature": good}, True),
+                ("correct+other-keys", {"scram_server_signature": good, "x": 1}, True),
+                ("authextra-absent", None, False), ("authextra-empty", {}, False),
+                ("signature-none", {"scram_server_signature": None}, False),
+                ("signature-empty", {"scram_server_signature": ""}, False),
+                ("other-key-only", {"server_signature": good}, False),
+                ("other-password", {"scram_server_signature": other}, False),
+                ("client-proof-echoed", {"scram_server_signature": proof}, False),
+                ("extended", {"scram_server_signature": R.b64(ssig + b"\x00")}, False)]
+    variants += [("truncated", {"scram_server_signature": R.b64(ssig[:n])}, False) for n in (0, 1, 16, 31)]
+    variants += [("bit-%d" % b, {"scram_server_signature": R.b64(R.flip(ssig, b))}, False)
+                 for b in list(range(0, 256, 8)) + [255]]
+    roles = {"broker": role.RoleBrokerFeatures(), "dealer": role.RoleDealerFeatures()}
+    for name, authextra, ok in variants:
+        sess, tr, am2, proof2 = until_welcome()
+        o.evals += 1
+        o.stats["nontrivial"] += 1
+        if (am2, proof2) != (am, proof):
+            raise RuntimeError("exchange not reproducible")
+        n0 = len(tr.sent)
+        try:
+            sess.onMessage(message.Welcome(4242, roles, realm="realm1", authid=authid, authrole="user",
+                                           authmethod="scram", authprovider="static", authextra=authextra))
+            spin()
+        except Exception as e:
+            o.bad("C19|session-scram|escape|%s" % _exc(e), "%s WELCOME variant %s: %r" % (what, name, e), ra)
+            continue
+        aborts = [m for m in tr.sent[n0:] if isinstance(m, message.Abort)]
+        joined = bool(sess.joined) or sess._session_id is not None
+        if ok:
+            if not joined or aborts:
+                o.bad("C19|session-scram|correct-signature-refused", "%s WELCOME variant %s: joined=%s sent=%r" % (
+                    what, name, joined, tr.sent[n0:]), ra)
+            else:
+                o.stats["session-scram:joined:" + fw] += 1
+        else:
+            o.stats["faults"] += 1
+            if joined:
+                o.bad("C19|session-scram|joined-without-correct-signature|%s" % name.split("-")[0],
+                      "%s: the session joined (session id %r, on_join calls %d) on a WELCOME(authmethod=scram) with "
+                      "authextra=%r; correct server signature is %s" % (
+                          what, sess._session_id, len(sess.joined), authextra, good), ra)
+            elif not aborts:
+                o.bad("C19|session-scram|refused-without-abort", "%s WELCOME variant %s: sent=%r" % (
+                    what, name, tr.sent[n0:]), ra)
+            else:
+                o.stats["session-scram:refused"] += 1
+    # outside the statement (observe_at: authenticator return values; WELCOME naming the scram method):
+    # recorded, not judged - a WELCOME that names no / another authmethod after the SCRAM exchange
+    sess, tr, _, _ = until_welcome()
+    try:
+        sess.onMessage(message.Welcome(4242, roles, realm="realm1", authid=authid, authrole="user"))
+        spin()
+        o.stats["session-scram:welcome_without_authmethod_" + ("joined" if sess.joined else "refused")] += 1
+    except Exception:
+        o.stats["session-scram:welcome_without_authmethod_raised"] += 1
 
 
 def _cred(o, R, auth, a):
